@@ -492,6 +492,11 @@ def _boolterm(o):
 
 
 _UFUNC = {}
+_PICKLED = []
+
+
+def _unpickle_sym(k):
+    return _PICKLED[k]
 
 
 class Sym:
@@ -677,6 +682,11 @@ class Sym:
 
     def __deepcopy__(self, memo):
         return self
+
+    def __reduce__(self):
+        # pickling a model that holds proxies: round-trip through a side table (z3 terms are not picklable)
+        _PICKLED.append(self)
+        return (_unpickle_sym, (len(_PICKLED) - 1,))
 
     def __copy__(self):
         return self
